@@ -324,3 +324,20 @@ def private_helper_of(prog, fn, allowed_pred, idx=None, depth=0):
         if not (allowed_pred(cf) or private_helper_of(prog, cf, allowed_pred, idx, depth + 1)):
             return False
     return True
+
+
+def helper_roots(prog, fn, allowed_pred, idx=None, depth=0):
+    """Names of the allowed functions on whose behalf a private helper acts (its transitive callers that satisfy allowed_pred)."""
+    idx = idx if idx is not None else callers_index(prog)
+    out = set()
+    if depth > 4:
+        return out
+    for c in idx.get(fn["did"], set()):
+        cf = prog.fns.get(c)
+        if cf is None:
+            continue
+        if allowed_pred(cf):
+            out.add(cf["name"])
+        elif not cf.get("exported", True):
+            out |= helper_roots(prog, cf, allowed_pred, idx, depth + 1)
+    return out
